@@ -158,6 +158,15 @@ fn shape_hash(list: &[u8]) -> u64 {
 /// keyboard-like traffic on the listened channel: chords up to 32 keys, random release order,
 /// duplicates, strays, All-Notes-Off, velocity-0 offs, mode switches, polls at random positions
 pub fn drive_kbd(s: &mut Session, rng: &mut Rng, runs: usize, events: usize) {
+    drive_kbd_cap(s, rng, runs, events, 32)
+}
+
+/// more than 32 keys down at once (beyond the premise of C04; edges, controllers still apply)
+pub fn drive_overflow(s: &mut Session, rng: &mut Rng, runs: usize) {
+    drive_kbd_cap(s, rng, runs, 200, 45)
+}
+
+fn drive_kbd_cap(s: &mut Session, rng: &mut Rng, runs: usize, events: usize, cap: usize) {
     let prios = ["last", "high", "low"];
     for run in 0..runs {
         let c: u8 = if rng.chance(1, 8) { rng.below(256) as u8 } else { rng.below(16) as u8 };
@@ -166,8 +175,11 @@ pub fn drive_kbd(s: &mut Session, rng: &mut Rng, runs: usize, events: usize) {
         let mut tx = Tx { last_status: 0 };
         let mut held: Vec<u8> = Vec::new(); // only to respect the premise (<= 32 outstanding)
         let pool: Vec<u8> = (0..6).map(|_| rng.below(128) as u8).collect();
-        let chordy = run % 3 == 0;
-        let mut target: usize = 1 + rng.below(32) as usize;
+        let chordy = run % 3 == 0 || cap > 32;
+        let mut target: usize = if cap > 32 { cap } else { 1 + rng.below(32) as usize };
+        if cap > 32 && run % 2 == 0 {
+            s.retrig(true);
+        }
         let mut filling = true;
         for _ in 0..events {
             if !s.alive {
@@ -180,13 +192,13 @@ pub fn drive_kbd(s: &mut Session, rng: &mut Rng, runs: usize, events: usize) {
                 }
                 if !filling && held.is_empty() {
                     filling = true;
-                    target = 1 + rng.below(32) as usize;
+                    target = if cap > 32 { 33 + rng.below((cap - 32) as u64) as usize } else { 1 + rng.below(32) as usize };
                 }
                 if filling { r < 55 } else { r < 10 }
             } else {
                 r < 30
             };
-            if want_on && held.len() < 32 {
+            if want_on && held.len() < cap {
                 let n = if rng.chance(7, 10) { *rng.pick(&pool) } else { rng.below(128) as u8 };
                 let v = if rng.chance(1, 10) { *rng.pick(&[1u8, 127, 64]) } else { 1 + rng.below(127) as u8 };
                 tx.msg(s, rng, 0x90 | ch, &[n, v]);
@@ -485,7 +497,7 @@ pub fn drive_ctl(s: &mut Session, rng: &mut Rng, full: bool) {
         s.bytes(&[0, 0, 127, 127]);
     }
     // controller values set, then reset-all-controllers
-    for _ in 0..8 {
+    for _ in 0..40 {
         let c = rng.below(16) as u8;
         s.start(c, "ctl");
         for k in [1u8, 5, 7, 71, 74, 64, 65] {
@@ -493,7 +505,14 @@ pub fn drive_ctl(s: &mut Session, rng: &mut Rng, full: bool) {
         }
         s.bytes(&[0xE0 | c, rng.below(128) as u8, rng.below(128) as u8]);
         s.bytes(&[0x90 | c, 50, 70]);
+        let (lsb, msb) = (rng.below(128) as u8, rng.below(128) as u8);
+        s.bytes(&[0xE0 | c, lsb, msb]);
+        let (k, v) = (*rng.pick(&[1u8, 5, 7, 71, 74, 64, 65]), rng.below(128) as u8);
+        s.bytes(&[0xB0 | c, k, v]);
         s.bytes(&[0xB0 | c, 121, rng.below(128) as u8]);
+        // the very same values again after the reset: they must take effect again
+        s.bytes(&[0xE0 | c, lsb, msb]);
+        s.bytes(&[0xB0 | c, k, v]);
         s.poll_r();
         s.bytes(&[0x80 | c, 50, 0]);
         s.poll_f();
@@ -559,11 +578,13 @@ pub fn record(driver: &str, seed: u64, thorough: bool, out: &mut Out) -> Stats {
         "kbd" => {
             if thorough {
                 drive_kbd(&mut s, &mut rng, 900, 400);
-                drive_kbd(&mut s, &mut rng, 2, 150_000)
+                drive_kbd(&mut s, &mut rng, 2, 150_000);
+                drive_overflow(&mut s, &mut rng, 100)
             } else {
                 drive_kbd(&mut s, &mut rng, 120, 300);
                 // one long history without a reset (more than 2^16 bytes)
-                drive_kbd(&mut s, &mut rng, 1, 30_000)
+                drive_kbd(&mut s, &mut rng, 1, 30_000);
+                drive_overflow(&mut s, &mut rng, 12)
             }
         }
         "framing" => {
